@@ -923,3 +923,120 @@ Proof.
     destruct (ni_nb _ _ _ HiF). lia.
   - eexists. split; [reflexivity|]. exact I.
 Qed.
+
+(* ---------------------------------------------------------------- no spurious truncation *)
+
+Lemma of_Mv_trunc d vec (r : M (option hvec)) d' : of_Mv d vec r = Ok (d', RErr Truncation) ->
+  exists w', r = Err (Truncation, w').
+Proof. destruct r as [[v w]|[e w]|]; simpl; intros H; inversion H; subst. eauto. Qed.
+
+Theorem rr_no_spurious d g L s h n ty cl ttl rd vec d' : AInv d g L -> wf_name n -> wf_bytes rd ->
+  hs_contract (d_regs d) g h n ->
+  step d (OAddRr s h n ty cl ttl rd vec) = Ok (d', RErr Truncation) ->
+  w_avail (d_w d) < w_cursor (d_w d) + length (nm_wire n) + 10 + length rd.
+Proof.
+  intros Hi Hwf Hrd Hc E. destruct (contract_ok d g L h n Hi Hc Hwf) as [Hh HhL].
+  cbn [step] in E. apply of_Mv_trunc in E as [w' E].
+  unfold add_section_rr, with_rollback in E.
+  destruct (change_section s (d_w d)) as [[[] w1]|[e w1]|] eqn:Ecs; cbn [bind] in E.
+  3:{ discriminate. }
+  2:{ unfold change_section in Ecs. destruct s; destruct (w_section (d_w d)); inversion Ecs; subst; discriminate. }
+  destruct (change_section_inv _ _ _ _ Ecs) as [x ->].
+  pose proof (add_rr_L (resolve_hint (d_regs d) h) n ty cl (ttl_from ttl) rd (if vec then Some [] else None)
+                (set_section (d_w d) x) L [] (g_q g) (g_o g) (g_r g)
+                (NInv_set_section _ _ _ x (a_ni _ _ _ Hi)) (a_an _ _ _ Hi) (vec0_ok _ _ _ vec) Hwf Hrd Hh HhL) as P.
+  destruct (add_rr (resolve_hint (d_regs d) h) n ty cl (ttl_from ttl) rd (if vec then Some [] else None)
+                   (set_section (d_w d) x)) as [[v' w2]|[e w2]|]; simpl in P; cbn [bind] in E.
+  - destruct (checked_add16 (sec_count s w2) 1); discriminate.
+  - inversion E; subst e. destruct P as [[_ K]|[K _]]; [exact K|discriminate].
+  - discriminate.
+Qed.
+
+Theorem rrset_no_spurious d g L s h n ty cl ttl rds vec d' : AInv d g L -> wf_name n ->
+  Forall wf_bytes rds -> hs_contract (d_regs d) g h n ->
+  step d (OAddRrset s h n ty cl ttl rds vec) = Ok (d', RErr Truncation) ->
+  w_avail (d_w d) < w_cursor (d_w d) + rds_size n rds.
+Proof.
+  intros Hi Hwf Hrd Hc E. destruct (contract_ok d g L h n Hi Hc Hwf) as [Hh HhL].
+  cbn [step] in E. apply of_Mv_trunc in E as [w' E].
+  unfold add_section_rrset, with_rollback in E.
+  destruct (change_section s (d_w d)) as [[[] w1]|[e w1]|] eqn:Ecs; cbn [bind] in E.
+  3:{ discriminate. }
+  2:{ unfold change_section in Ecs. destruct s; destruct (w_section (d_w d)); inversion Ecs; subst; discriminate. }
+  destruct (change_section_inv _ _ _ _ Ecs) as [x ->].
+  pose proof (rrset_L n ty cl (ttl_from ttl) (g_q g) rds (resolve_hint (d_regs d) h) (if vec then Some [] else None) 0
+                (set_section (d_w d) x) L [] (g_o g) (g_r g)
+                (NInv_set_section _ _ _ x (a_ni _ _ _ Hi)) (a_an _ _ _ Hi) (vec0_ok _ _ _ vec) Hwf Hrd Hh HhL) as P.
+  destruct (add_rrset_loop (resolve_hint (d_regs d) h) n ty cl (ttl_from ttl) rds (if vec then Some [] else None) 0
+                   (set_section (d_w d) x)) as [[[v' k] w2]|[e w2]|]; simpl in P; cbn [bind] in E.
+  - destruct (65535 <? N.of_nat k)%N; [discriminate|].
+    destruct (checked_add16 (sec_count s w2) (N.of_nat k)); discriminate.
+  - inversion E; subst e. destruct P as [[_ K]|[K _]]; [exact K|discriminate].
+  - discriminate.
+Qed.
+
+Theorem question_no_spurious d g L n qt qc d' : AInv d g L -> wf_name n ->
+  step d (OAddQuestion n qt qc) = Ok (d', RErr Truncation) ->
+  w_avail (d_w d) < w_cursor (d_w d) + length (nm_wire n) + 4.
+Proof.
+  intros Hi Hwf E. cbn [step] in E. unfold add_question in E.
+  destruct (w_section (d_w d)); try (simpl in E; discriminate).
+  destruct (checked_add16 (w_qd (d_w d)) 1) as [nq|]; [|simpl in E; discriminate].
+  unfold with_rollback in E.
+  pose proof (write_unhinted_L _ n (d_w d) L (a_ni _ _ _ Hi) Hwf) as P1.
+  destruct (write_unhinted_name n (d_w d)) as [[pr w1]|[e w1]|]; simpl in P1; cbn [bind] in E.
+  3:{ contradiction. }
+  2:{ destruct P1 as [_ [_ [_ K]]]. lia. }
+  destruct P1 as [W [Hsz [_ [L1 [G1 [Hi1 HpL]]]]]]. pose proof W as [X _].
+  set (w1' := if (w_qd w1 =? 0)%N then set_qname w1 pr else w1) in *.
+  assert (E1 : w_cursor w1' = w_cursor w1 /\ w_avail w1' = w_avail w1)
+    by (unfold w1'; destruct (w_qd w1 =? 0)%N; auto).
+  destruct E1 as [Ec1 Ea1].
+  pose proof (ni_nb _ _ _ Hi1) as [K1 _]. pose proof (x_av _ _ _ X) as Av.
+  assert (Hnb1 : w_cursor w1' <= w_avail w1') by lia.
+  clearbody w1'.
+  destruct (try_push_u16 qt w1') as [[u2 w2]|[e w2]|] eqn:E2; cbn [bind] in E.
+  3:{ discriminate. }
+  2:{ pose proof (try_push_err_size _ _ _ _ Hnb1 E2) as K. unfold be16 in K. simpl length in K. lia. }
+  destruct (try_push_ext (w_cursor w1') _ _ _ _ E2 (le_n _)) as [X2 [_ [Hc2 _]]].
+  unfold be16 in Hc2. simpl length in Hc2.
+  destruct (try_push_u16 qc w2) as [[u3 w3]|[e w3]|] eqn:E3; cbn [bind] in E.
+  3:{ discriminate. }
+  2:{ pose proof (try_push_err_size _ _ _ _ (x_cav _ _ _ X2) E3) as K. unfold be16 in K. simpl length in K.
+      rewrite (x_av _ _ _ X2) in K. lia. }
+  simpl in E. discriminate.
+Qed.
+
+Theorem run_writer_never_panics buf limit w0 ops : writer_new buf limit = Ok w0 ->
+  run_contract (mkD w0 []) g0 ops -> exists rr, run_writer buf limit ops = Ok rr.
+Proof.
+  intros H0 Hc. destruct (run_writer_ok buf limit w0 ops H0 Hc) as [rr [E _]]. eauto.
+Qed.
+
+(* per name write, with the pointer target known to be a label start of an earlier name *)
+Theorem hinted_into_label_starts hl h n w L : NInv w hl L -> wf_name n -> hint_contract h n w ->
+  hint_in h w L ->
+  match write_hinted_name h n w with
+  | Ok (pr, w') => emittedL n (w_buf w') (w_cursor w) (w_cursor w') L /\
+                   exists L', grew w w' L L' /\ NInv w' hl L' /\ (forall p, pr = Some p -> L' (p_ptr p))
+  | Err (e, _) => e = Truncation
+  | Panic => False
+  end.
+Proof.
+  intros Hi Hwf Hh HhL. pose proof (write_hinted_L hl h n w L Hi Hwf Hh HhL) as P.
+  destruct (write_hinted_name h n w) as [[pr w']|[e w']|]; simpl in P; auto; [|apply P].
+  destruct P as [_ [_ [E R]]]. auto.
+Qed.
+
+Theorem unhinted_into_label_starts hl n w L : NInv w hl L -> wf_name n ->
+  match write_unhinted_name n w with
+  | Ok (pr, w') => emittedL n (w_buf w') (w_cursor w) (w_cursor w') L /\
+                   exists L', grew w w' L L' /\ NInv w' hl L' /\ (forall p, pr = Some p -> L' (p_ptr p))
+  | Err (e, _) => e = Truncation
+  | Panic => False
+  end.
+Proof.
+  intros Hi Hwf. pose proof (write_unhinted_L hl n w L Hi Hwf) as P.
+  destruct (write_unhinted_name n w) as [[pr w']|[e w']|]; simpl in P; auto; [|apply P].
+  destruct P as [_ [_ [E R]]]. auto.
+Qed.
